@@ -187,6 +187,11 @@ impl Drop for Node {
 impl Drop for NodeData {
     fn drop(&mut self) {
         self.sodium_ctx.dec_node_count();
+        // keep_alive entries are counted references only this node knows about: release them here
+        // too, in case the gc deconstructor never saw this NodeData alive
+        for gc_node in self.keep_alive.get_mut().drain(..) {
+            gc_node.dec_ref();
+        }
     }
 }
 
